@@ -508,6 +508,16 @@ def digitRun (c : Cfg) (mantissa0 biasField precision fmt : Nat) : M (Nat × Nat
       else pure b
     pure (b >>> shift, digits, fractionLength, isPositiveExp, roundUp)
 
+/-- the non-zero finite case of `realToString`, after the sign has been written: the digit run,
+`start_at = stream.Length()`, `bigIntToString`, and the layout selected by `format.Type` -/
+def realFinite (c : Cfg) (s : List Nat) (mantissa biasField precision fmt : Nat) : M (List Nat) := do
+  let r ← digitRun c mantissa biasField precision fmt
+  let start := s.length
+  let s ← bigIntToString c.totalBits s r.1
+  if fmt = fmtSemiFixed then formatFixed false start s precision r.2.2.1 r.2.2.2.2
+  else if fmt = fmtFixed then formatFixed true start s precision r.2.2.1 r.2.2.2.2
+  else formatDefault start s precision r.2.1 r.2.2.1 r.2.2.2.1 r.2.2.2.2
+
 /-- `realToString<Float_T>(stream, number, format)`; `s` is what the stream holds. -/
 def realToString (c : Cfg) (s : List Nat) (number precision fmt : Nat) : M (List Nat) := do
   -- Default follows %g: a precision of zero is taken as one
@@ -517,12 +527,7 @@ def realToString (c : Cfg) (s : List Nat) (number precision fmt : Nat) : M (List
     let s := if number &&& c.signMask ≠ 0 then s ++ [Ch.negative] else s
     let mantissa := number &&& c.mantissaMask
     if mantissa ≠ 0 ∨ biasField ≠ 0 then
-      let (b, digits, fractionLength, isPositiveExp, roundUp) ← digitRun c mantissa biasField precision fmt
-      let start := s.length
-      let s ← bigIntToString c.totalBits s b
-      if fmt = fmtSemiFixed then formatFixed false start s precision fractionLength roundUp
-      else if fmt = fmtFixed then formatFixed true start s precision fractionLength roundUp
-      else formatDefault start s precision digits fractionLength isPositiveExp roundUp
+      realFinite c s mantissa biasField precision fmt
     else
       let s := s ++ [Ch.zero]
       if fmt = fmtFixed ∧ precision ≠ 0 then do
